@@ -3,7 +3,7 @@ import vlib
 import x86common as xc
 
 PROP = "C04"
-OWNS = lambda c: c in ("reg", "mem", "rip", "out-missing-fault", "out-spurious-error", "out-crash")
+OWNS = lambda c: c in ("reg", "mem", "rip", "out-missing-fault", "out-spurious-error", "out-crash", "fault-moved-state")
 DEVKEY = "stack-slot-shifted-by-one"
 
 
@@ -21,7 +21,8 @@ def run(tier, seed):
         q = tier == "quick"
         res = xc.judge(rep, "stack", 60 if q else 800, seed + 3000, wd, "s", OWNS, jobs=8 if q else 14, known_dev_key=DEVKEY)
         rep.cov["samples"] = [{"family": "stack", "example": sorted(res.distinct)[:3]}]
-        xc.finish_cov(rep, res, mc, "Every PUSH/POP/CALL/RET form with RSP anywhere in the stack page (incl. misaligned), distinct landing pads in "
+        xc.finish_cov(rep, res, mc, "Every PUSH/POP/CALL/RET form with RSP anywhere in the stack page (incl. misaligned), at and across both edges of the stack "
+                      "area, in read-only and in unmapped memory (a refused access must leave RSP, registers and memory as they were), distinct landing pads in "
                       "[rsp] and [rsp+8]; judged: RSP, destination register, every stack byte written, RIP. An event that differs from the "
                       "architecture but equals ax's documented convention EXACTLY (store at old RSP then decrement / increment then load) is "
                       "the known finding; any other difference is a violation.")
